@@ -164,7 +164,7 @@ func discharge(o *Obligation, cfg SolverCfg) {
 // (sat or unknown are accepted; unsat means the assumptions are contradictory).
 func checkCover(o *Obligation, cfg SolverCfg) {
 	base := filepath.Join(cfg.OutDir, sanitize(o.Name))
-	smt := o.Script.Render(o.NFacts, o.NegGoal, false, false)
+	smt := o.Script.RenderCover(o.NFacts, o.NegGoal)
 	fz := base + ".smt2"
 	os.WriteFile(fz, []byte(smt), 0o644)
 	t := cfg.TimeoutS
